@@ -24,3 +24,5 @@ def check(v, tier, opts):
     v.outside.append("Polars backend (polars-core object graph not encodable); lengths above the bound")
     kani_engine.decide(v, "C02", tier, opts)
     return v.finish(RULE)
+
+READY = True
